@@ -132,6 +132,40 @@ def run(p, led, tier):
             else:
                 led.fail("C12-R1", key, where(tr, un[0]), "the escape is reverted before a later pass scans the text")
 
+    # ---------------- R3 no stale renderings: a memo of rendered text must be keyed on the whole binding dictionary
+    render_fns = [m for m in rib.methods.values() if m is tr or m.name.startswith("_process") or m.name.startswith("_render")]
+    reach = {}
+    for m in render_fns:
+        for g in res.reachable_from(m):
+            if g.cls is rib:
+                reach[g.key] = g
+    n_cache = 0
+    for g in reach.values():
+        for n in walk_no_nested(g.node):
+            if isinstance(n, ast.Assign) and isinstance(n.targets[0], ast.Subscript) and is_self_attr(n.targets[0].value):
+                attr = n.targets[0].value.attr
+                if attr in ("templates", "filters"):
+                    continue
+                n_cache += 1
+                keyexpr = n.targets[0].slice
+                kdef = keyexpr
+                if isinstance(keyexpr, ast.Name):
+                    defs = [a for a in walk_no_nested(g.node) if isinstance(a, ast.Assign) and isinstance(a.targets[0], ast.Name) and a.targets[0].id == keyexpr.id]
+                    kdef = defs[-1].value if defs else keyexpr
+                whole = any(isinstance(x, ast.Call) and isinstance(x.func, ast.Attribute) and x.func.attr == "items" and isinstance(x.func.value, ast.Name) and x.func.value.id == "context"
+                            for x in ast.walk(kdef)) or any(isinstance(x, ast.Call) and isinstance(x.func, ast.Name) and x.func.id in ("repr", "str", "frozenset", "tuple", "sorted")
+                                                          and any(isinstance(y, ast.Name) and y.id == "context" for y in x.args) for x in ast.walk(kdef))
+                key = f"Ribosome.{g.name} ▸ memo self.{attr}[…]"
+                if whole:
+                    led.ok("C12-R3", key, where(g, n), "the memo key covers the whole binding dictionary")
+                else:
+                    led.fail("C12-R3", key, where(g, n),
+                             f"rendered text is memoised under `{short(kdef, 80)}`, which does not cover every binding the rendering reads (conditions, loop lists, nested includes): a later call with other bindings gets the stale text",
+                             witness="render a page whose partial contains {{#each items}} twice on one Ribosome with different items: the second page shows the first list")
+    led.rule("C12-R3", "a memo of rendered text is keyed on everything the rendering reads (the whole binding dictionary)", 0)
+    if n_cache == 0:
+        led.ok("C12-R3", "Ribosome ▸ rendering keeps no memo between calls", RB, f"{len(reach)} functions on the rendering path write no keyed state", nontrivial=False)
+
     # ---------------- R2 structure
     pv = rib.methods.get("_process_variables")
     # missing simple variable -> warning on the path that leaves it unexpanded
@@ -173,15 +207,24 @@ def run(p, led, tier):
 
 # ----------------------------------------------------------------------
 def _escapers(rib):
-    """names of methods/functions that rewrite the template delimiter in their argument (escaping functions)"""
+    """names of methods that rewrite the template delimiter in their argument on *every* return path (escaping functions)"""
     out = set()
     for m in rib.methods.values():
-        for n in walk_no_nested(m.node):
-            if isinstance(n, ast.Return) and n.value is not None:
-                for c in ast.walk(n.value):
-                    if isinstance(c, ast.Call) and isinstance(c.func, ast.Attribute) and c.func.attr == "replace" and c.args \
-                            and isinstance(c.args[0], ast.Constant) and c.args[0].value == "{{" and len(c.args) > 1 and isinstance(c.args[1], ast.Constant) and "{{" not in str(c.args[1].value):
-                        out.add(m.name)
+        rets = [n for n in walk_no_nested(m.node) if isinstance(n, ast.Return) and n.value is not None]
+        if not rets:
+            continue
+
+        def rewrites(e):
+            for c in ast.walk(e):
+                if isinstance(c, ast.Call) and isinstance(c.func, ast.Attribute) and c.func.attr == "replace" and c.args \
+                        and isinstance(c.args[0], ast.Constant) and c.args[0].value == "{{" and len(c.args) > 1 \
+                        and not (isinstance(c.args[1], ast.Constant) and "{{" in str(c.args[1].value)):
+                    return True
+            return False
+        if all(rewrites(r.value) for r in rets):
+            out.add(m.name)
+        elif any(rewrites(r.value) for r in rets):
+            out.discard(m.name)
     return out
 
 
@@ -223,6 +266,12 @@ def _source_kind(e, fn, escapers, local_sources):
             return _source_kind(e.args[0], fn, escapers, local_sources)
         if isinstance(f, ast.Attribute) and f.attr == "translate":
             return "rendered included template"
+        if is_self_attr(f) and e.args:
+            # a helper that is not an escaping function on all of its paths passes its argument through
+            for a in e.args:
+                k = _source_kind(a, fn, escapers, local_sources)
+                if k:
+                    return k
     if isinstance(e, ast.Subscript) and isinstance(e.value, ast.Name) and e.value.id in ("context", "loop_context"):
         return "bound values"
     if isinstance(e, ast.Attribute) and e.attr == "sequence" and isinstance(e.value, ast.Name) and e.value.id in local_sources:
